@@ -72,6 +72,10 @@ pub struct Universe {
     pub vsets: Vec<VSet>,
     pub unions: Vec<Vec<u32>>,
     pub strings: Vec<String>,
+    /// In which order `filter_candidates` lists its answer (the trait promises the set, not the
+    /// order): 0 = order of the input, 1 = reversed input, 2 = ascending ids, 3 = descending ids.
+    #[serde(default)]
+    pub filter_order: u8,
 }
 
 /// A problem over a universe.
@@ -203,6 +207,7 @@ impl Universe {
             Req::Union(u) => Req::Union(un[*u as usize]),
         };
         let mut out = Universe::default();
+        out.filter_order = self.filter_order;
         // inert fillers
         out.pkgs = (0..size(pk))
             .map(|i| Pkg {
@@ -444,7 +449,14 @@ impl DependencyProvider for Prov {
         self.pause(PAUSE_FILTER, Ev::Filter(version_set.0, inverse)).await;
         self.log(Ev::FilterRet(version_set.0, inverse));
         let m = &self.u.vsets[version_set.0 as usize].matching;
-        candidates.iter().copied().filter(|c| m.contains(&c.0) != inverse).collect()
+        let mut out: Vec<SolvableId> = candidates.iter().copied().filter(|c| m.contains(&c.0) != inverse).collect();
+        match self.u.filter_order {
+            1 => out.reverse(),
+            2 => out.sort_by_key(|s| s.0),
+            3 => out.sort_by_key(|s| std::cmp::Reverse(s.0)),
+            _ => {}
+        }
+        out
     }
 
     async fn get_candidates(&self, name: NameId) -> Option<Candidates> {
